@@ -86,7 +86,10 @@ fn pick_n(rng: &mut Rng, allow_wide: bool, wide_share_pct: u32, min_n: usize) ->
         // wide: beyond any plausible fixed channel size
         // ... and, rarely, beyond 256
         const WIDE: [usize; 8] = [25, 33, 40, 65, 66, 129, 130, 160];
-        if rng.chance(1, 12) {
+        if rng.chance(1, 40) {
+            // beyond 1024 (only the shapes whose build() is cheap, see family_edges)
+            [1030, 1100][rng.below(2)]
+        } else if rng.chance(1, 12) {
             [257, 300][rng.below(2)]
         } else {
             WIDE[rng.below(WIDE.len())]
@@ -108,7 +111,8 @@ fn family_edges(rng: &mut Rng, n: usize, fam: &mut String) -> Vec<(usize, usize)
         *fam = if n == 0 { "empty" } else { "singleton" }.to_string();
         return e;
     }
-    let k = rng.below(12);
+    // above 1000 functions only shapes for which build() (pairwise path search) stays cheap
+    let k = if n > 1000 { [1usize, 2, 5][rng.below(3)] } else { rng.below(12) };
     match k {
         0 => {
             *fam = "chain".into();
@@ -360,6 +364,8 @@ pub fn gen_graph(rng: &mut Rng, n: usize, decl_mode: DeclMode) -> GraphSpec {
     let greedy = ntypes > 8 && rng.chance(1, 2);
     // swarm: a third of the graphs use the unusual (legal) ways of returning the lists
     let list_styles = rng.chance(1, 3);
+    // swarm: every function also has data of its own (real graphs have hundreds of types)
+    let private_types = n <= 512 && rng.chance(1, 3);
     let mut fns = Vec::with_capacity(n);
     for _ in 0..n {
         let (mut r, mut w) = (0u16, 0u16);
@@ -400,7 +406,8 @@ pub fn gen_graph(rng: &mut Rng, n: usize, decl_mode: DeclMode) -> GraphSpec {
             }
         }
         let style = if list_styles { rng.below(16) as u8 } else { 0 };
-        fns.push(FnDecl { reads: r, writes: w, style });
+        let own = if private_types { rng.range(1, 2) as u8 } else { 0 };
+        fns.push(FnDecl { reads: r, writes: w, style, own });
     }
     GraphSpec {
         fns,
@@ -479,7 +486,7 @@ pub fn gen_run(rng: &mut Rng, n: usize, k: &RunKnobs) -> RunSpec {
                 40..=64 => Some(2),
                 65..=76 => Some(3),
                 77..=80 => Some(rng.range(4, 16)),
-                81..=82 => Some([63, 64, 65, 128][rng.below(4)]),
+                81..=82 => Some([63, 64, 65, 128, usize::MAX, u32::MAX as usize][rng.below(6)]),
                 83..=90 => Some(n.max(1)),
                 _ => Some(n + 1),
             }
@@ -491,7 +498,7 @@ pub fn gen_run(rng: &mut Rng, n: usize, k: &RunKnobs) -> RunSpec {
                 65..=74 => Some(2),
                 75..=80 => Some(3),
                 81..=84 => Some(rng.range(4, 16)),
-                85..=86 => Some([63, 64, 65, 128][rng.below(4)]),
+                85..=86 => Some([63, 64, 65, 128, usize::MAX, u32::MAX as usize][rng.below(6)]),
                 87..=93 => Some(n.max(1)),
                 _ => Some(n + 1),
             }
@@ -811,7 +818,12 @@ pub fn gen_case(prop: Prop, rng: &mut Rng) -> GenCase {
         // histories / simultaneous runs: moderately wide graphs, too
         n = [32, 33, 40, 65][rng.below(4)];
     }
-    let dm = pick_decl_mode(rng, conflict_bias);
+    let mut dm = pick_decl_mode(rng, conflict_bias);
+    if n > 1000 && !matches!(dm, DeclMode::None | DeclMode::ReadOnly) {
+        // build() searches a path for every pair that is not yet ordered: with a
+        // thousand mutually conflicting functions that is cubic
+        dm = if rng.chance(1, 2) { DeclMode::None } else { DeclMode::ReadOnly };
+    }
     let graph = gen_graph(rng, n, dm);
     let mut runs = Vec::new();
     let mut sched = Vec::new();
